@@ -534,7 +534,19 @@ impl Rest {
 
     fn add_consumer(&mut self, vec: &ObservableVector<Elem>, spec: &ConsumerSpec, batched: bool, twin: Option<usize>) -> usize {
         let id = self.consumers.len();
-        let cs = Rc::new(ConsumerShared { id, chain_len: spec.chain.len(), retire: Cell::new(None), violation: RefCell::new(None) });
+        let mut chain_props: Vec<String> = Vec::new();
+        for st in &spec.chain {
+            if !chain_props.iter().any(|x| x == st.prop()) {
+                chain_props.push(st.prop().into());
+            }
+        }
+        if spec.chain.len() > 1 {
+            chain_props.push("C12".into());
+        }
+        if batched && !spec.chain.is_empty() {
+            chain_props.push("C13".into());
+        }
+        let cs = Rc::new(ConsumerShared { id, chain_len: spec.chain.len(), chain_props, retire: Cell::new(None), violation: RefCell::new(None) });
         let sub = vec.subscribe();
         let snapshot = vs(&sub.values());
         if snapshot != self.model {
@@ -729,7 +741,10 @@ impl Rest {
                 let detail = format!("stream reports Pending with the replica at {:?} while the vector contains {:?}", vs(&t0.replica), w.contents);
                 drop(w);
                 drop(t0);
-                self.violate(&["C05", "C06", "C07"], "replica_diverged_at_pending", 0, detail);
+                let extra: Vec<String> = self.consumers[j].cs.chain_props.clone();
+                let mut ps: Vec<&str> = vec!["C05", "C06", "C07"];
+                ps.extend(extra.iter().map(|x| x.as_str()));
+                self.violate(&ps, "replica_diverged_at_pending", 0, detail);
                 return;
             }
             if w.auditor_on {
